@@ -1,5 +1,5 @@
 """C17 Inactivity shutdown needs all parties idle at once and cannot deadlock."""
-from mirlib import AnchorMissing, describe_operand, describe_rvalue, guards, _suffix_match
+from mirlib import AnchorMissing, describe_operand, describe_rvalue, dom_guards, guards, _suffix_match
 from rules.common import aggregates, callers_by_name, calls_on_field, owner_def, where
 
 META = {
@@ -288,3 +288,31 @@ def run(ctx):
                 vl = set(b.var_locals("voted"))
                 st = {i for i, j, p, rv, line in b.assigns() if p[0] in vl and not p[1] and rv[0] == "use" and rv[1][0] == "k" and rv[1][1].get("b") is True}
                 r.check(any(b.dominates(i, c.block) or b.dominates(c.block, i) for i in st), tag + "vote=>voted:=true", c.loc(), "the task records voted = true around vote()", "vote() without recording voted = true")
+
+    with ctx.rule("C17.R8", "T2", "a task's own inactivity timeout ends it only through a unanimous vote", floor=5) as r:
+        # the first task to finish triggers the kill switch of its runtime, so a task that leaves its loop on its own timeout without
+        # voting stops the runtime although the other tasks never agreed
+        n = 0
+        for b in rt.all_bodies():
+            if "timeout_coord" in b.defpath:
+                continue
+            for c in b.calls:
+                if not c.is_method(V, "vote"):
+                    continue
+                n += 1
+                ctx.saw(b)
+                tag = owner_def(b).replace("swimos_runtime::", "")
+                g = [x for x in dom_guards(b, c.block) if x[0].startswith("disc(")]
+                if not g:
+                    raise AnchorMissing("%s: vote() is not inside an event arm" % tag)
+                d, l, blk = g[-1]
+                ve = b.variant_edges(blk)
+                if not ve or l not in ve:
+                    raise AnchorMissing("%s: cannot find the arm of vote()" % tag)
+                t = ve[l]
+                reach = b.reachable_from([t])
+                heads = {x for x in reach if b.dominates(x, blk)}
+                w = b.path_avoiding([t], set(b.exits()), avoid={c.block} | heads)
+                r.check(w is None, "%s/%s-arm/exit-only-after-vote" % (tag, l), c.loc(), "from the `%s` arm the task returns only through vote()" % l,
+                        "the `%s` arm can leave the task's loop without calling vote() (path through blocks %s): the runtime stops although the other tasks have not voted, e.g. an agent that is only serving HTTP requests" % (l, (w or [])[:8]))
+        r.check(n >= 5, "scope/vote-sites", "-", "%d tasks vote" % n)
